@@ -252,6 +252,7 @@ class PathResult(object):
         self.aborted = aborted
         self.notes = ctx.notes
         self.axioms_used = set(ctx.axioms_used)
+        self.names = dict(ctx.names)
         self.extra = extra or {}
 
 
